@@ -6,6 +6,7 @@ import (
 	"strconv"
 	"strings"
 
+	"github.com/vicanso/pike/config"
 	"verifh/hx"
 )
 
@@ -383,7 +384,17 @@ func c03(r *hx.Run) {
 	r.Rule = "one fresh URL per case: method from {GET,HEAD,POST,PUT,DELETE,PATCH,OPTIONS}, status from 12 codes, Cache-Control built from lifetime directives (values 0..20 digits), blocking directives, harmless/extension directives (incl. names that contain a directive name), random order, casing, separators, 1-3 header lines, quoted arguments, duplicates; Set-Cookie none/one/empty-then-real/two; Age valid/invalid; Expires/Last-Modified. The request (or a burst of 3) is followed by an identical one; an independent token-level predicate says whether the first response was shareable. Verdict only on stored => shareable, label truthfulness and exactly-once; the converse is counted. Non-trivial/distinct = distinct (class, header set) that was unshareable, or shareable and in fact stored."
 	r.Assume = []string{"virtual clock (static) so that storing is observable on the second request", "duplicate lifetime directives with different values, unparsable numbers and invalid Age are left unjudged (ambiguous)"}
 	rnd := rand.New(rand.NewSource(r.Seed))
-	w := newSimpleWorld(r, hx.SimpleCfg{CacheName: "c03", HitForPass: "5m"}, 1, true)
+	port := hx.FreePorts(1)[0]
+	w := newWorldCfg(r, 1, true, func(origins []string) *config.PikeConfig {
+		return &config.PikeConfig{
+			Caches:    []config.CacheConfig{{Name: "c03", Size: 100000, HitForPass: "5m"}},
+			Upstreams: []config.UpstreamConfig{{Name: "u", Servers: []config.UpstreamServerConfig{{Addr: origins[0]}}}},
+			// the second location adds a cacheable-looking Cache-Control to every response: what the
+			// origin said must still decide
+			Locations: []config.LocationConfig{{Name: "l", Upstream: "u"}, {Name: "lcc", Upstream: "u", Prefixes: []string{"/c03cc/"}, RespHeaders: []string{"Cache-Control:public, max-age=300"}}},
+			Servers:   []config.ServerConfig{{Addr: srvAddr(port), Locations: []string{"l", "lcc"}, Cache: "c03"}},
+		}
+	})
 	defer w.Farm.Close()
 	var cur c03Case
 	w.Farm.SetScript(func(f *hx.Fetch) *hx.Reply {
@@ -394,6 +405,15 @@ func c03(r *hx.Run) {
 	n := r.Pick(3000, 400000)
 	for i := 0; i < n && !r.TooMany(); i++ {
 		cur = c03Gen(rnd, i)
+		if i%5 == 4 && !cur.Drop {
+			// through the location with the configured Cache-Control response header; cases in which the
+			// origin sent no lifetime of its own are left unjudged (the configured header supplies one)
+			cur.URI = fmt.Sprintf("/c03cc/%d", i)
+			if cur.Reason == "no-cache-control" || cur.Reason == "no-lifetime-directive" {
+				cur.Share, cur.Class = "ambiguous", "ambiguous:configured-cache-control-supplies-lifetime"
+			}
+			r.Add("cases_through_location_with_configured_cache_control", 1)
+		}
 		c03Run(r, w, cur)
 		if i%500 == 0 {
 			w.Farm.Trim()
